@@ -40,9 +40,9 @@ Qed.
 
 Lemma settle_abs : forall b s1 s2 o, abs s1 = abs s2 -> abs (settle b s1 o) = abs (settle b s2 o).
 Proof.
-  intros b s1 s2 o H. destruct o; cbn; auto using release_abs.
-  - destruct (kv_get (s_nodes b) (t, id)); auto using release_abs.
-  - destruct (kv_get (s_edges b) (t, id)); auto using release_abs.
+  intros b s1 s2 o H. destruct o; cbn; auto using release_abs;
+    try (destruct (kv_get (s_nodes b) (t, id)); auto using release_abs);
+    try (destruct (kv_get (s_edges b) (t, id)); auto using release_abs).
 Qed.
 
 Lemma durable_abs : forall d s1 s2 o, abs s1 = abs s2 -> abs (durable_steps d s1 o) = abs (durable_steps d s2 o).
